@@ -198,7 +198,12 @@ def make_plugin(rec: Rec, hook_faults=False):
             boom("on_guard_evaluated")
 
         def on_interpreter_start(self, interp):
+            rec.log.append(("started",))
             boom("on_interpreter_start")
+
+        def on_interpreter_stop(self, interp):
+            rec.log.append(("stopped",))
+            boom("on_interpreter_stop")
 
         def on_action_error(self, interp, action, exc):
             p = getattr(action, "params", None)
@@ -386,6 +391,8 @@ def flat_log(log, raw_rearm=False):
             out += [TS("clock"), TN(o[1])]
         elif k == "svc":
             out += [TS("svc"), TS(o[1])]
+        elif k in ("started", "stopped"):
+            out += [TS(k)]
         i += 1
     return out
 
@@ -495,19 +502,27 @@ def run_sync(am: AM, events, cfg_opts=None, seed_ctx=None, per_event=True, probe
 
         def snap():
             snaps.append(flat_state(am, it, rec, list(it._event_queue), raw_rearm))
-        try:
-            with_timeout(4, it.start)
-        except Timeout:
-            snaps.append([TS("TIMEOUT")])
-            return snaps
-        except Exception as exc:
-            rec.log.append(("err", err_code(exc)))
-        snap()
+        life = any(e[0] in ("start", "stop") for e in events)
+        if not life:
+            try:
+                with_timeout(4, it.start)
+            except Timeout:
+                snaps.append([TS("TIMEOUT")])
+                return snaps
+            except Exception as exc:
+                rec.log.append(("err", err_code(exc)))
+            snap()
         for ev in events:
-            if probe_can and ev[0] not in ("burst", "at"):
+            if probe_can and ev[0] not in ("burst", "at", "start", "stop"):
                 rec.log.append(("can", bool(it.can(make_event(ev)))))
             try:
-                if ev[0] == "at":
+                if ev[0] == "start":
+                    with_timeout(4, it.start)
+                    evs = []
+                elif ev[0] == "stop":
+                    with_timeout(4, it.stop)
+                    evs = []
+                elif ev[0] == "at":
                     with_timeout(4, lambda: sched.advance(ev[1]))
                     evs = ev[2]
                 elif ev[0] == "burst":
@@ -611,16 +626,31 @@ def run_async(am: AM, events, cfg_opts=None, seed_ctx=None, per_event=True, prob
         def snap():
             q = list(getattr(it._event_queue, "_queue", []))
             snaps.append(flat_state(am, it, rec, q, raw_rearm))
-        try:
-            await it.start()
-        except Exception as exc:
-            rec.log.append(("err", err_code(exc)))
-        await quiesce(it)
-        snap()
+        life = any(e[0] in ("start", "stop", "start2") for e in events)
+        if not life:
+            try:
+                await it.start()
+            except Exception as exc:
+                rec.log.append(("err", err_code(exc)))
+            await quiesce(it)
+            snap()
         for ev in events:
-            if probe_can and ev[0] not in ("burst", "at"):
+            if probe_can and ev[0] not in ("burst", "at", "start", "stop", "start2"):
                 rec.log.append(("can", bool(it.can(make_event(ev)))))
-            if ev[0] == "at":
+            if ev[0] in ("start", "stop", "start2"):
+                try:
+                    if ev[0] == "start2":
+                        # two concurrent start() calls: must behave like one
+                        rs = await asyncio.gather(it.start(), it.start(), return_exceptions=True)
+                        for r_ in rs:
+                            if isinstance(r_, Exception):
+                                raise r_
+                    else:
+                        await (it.start() if ev[0] == "start" else it.stop())
+                except Exception as exc:
+                    rec.log.append(("err", err_code(exc)))
+                evs = []
+            elif ev[0] == "at":
                 # let virtual time pass a hair beyond t so that everything due at t has fired and been processed
                 lp = asyncio.get_event_loop()
                 await asyncio.sleep(max(0.0, ev[1] / 1000.0 + 0.0001 - lp.time()))
